@@ -20,7 +20,7 @@ def canon_analysis(h, pairs=None, with_profiles=True, with_names=False):
     gs = genomes_of(h)
     allp = [(a, d) for a in sorted(gs) for d in sorted(gs) if len(a) < len(d) and d[:len(a)] == a and gs[a].genes and gs[d].genes]
     use = allp if pairs is None else [p for p in pairs if p[0] in gs and p[1] in gs]
-    out['vmap'] = sorted(ob.hmapS(h.compare_genomes_vertically(gs[a], gs[d]).map) for a, d in use)
+    out['vmap'] = sorted(ob.vmapS(h.compare_genomes_vertically(gs[a], gs[d])) for a, d in use)
     if with_profiles:
         out['tpfull'] = ob.profileS(h.create_tree_profile().treemap)
         out['tphog'] = sorted(ob.profileS(h.create_tree_profile(hog=t).treemap, pathof(t.genome.taxon)) + '@' + nodekey(t)
@@ -130,7 +130,7 @@ def c13(tier, seed):
         o = ob.Obs(); o.put('load', 'ok'); ob.observe_load(base, o)
         gs = genomes_of(base)
         for a, dd in pairs:
-            o.put('vmap', ob.hmapS(base.compare_genomes_vertically(gs[a], gs[dd]).map))
+            o.put('vmap', ob.vmapS(base.compare_genomes_vertically(gs[a], gs[dd])))
         o.put('tpfull', ref['tpfull'])
         q = ['(v %s %s)' % (tax_q(a), tax_q(dd)) for a, dd in pairs]
         ex.submit(cid + '-own', D, o.tags, ['load', 'genes', 'members', 'forest', 'genomes', 'vmap', 'tpfull'], emit=['profiles'], queries=q)
@@ -249,7 +249,7 @@ def c14(tier, seed):
             o = ob.Obs(); o.put('load', 'ok'); ob.observe_load(h2, o)
             gs = genomes_of(h2)
             for a, d in pairs:
-                o.put('vmap', ob.hmapS(h2.compare_genomes_vertically(gs[a], gs[d]).map))
+                o.put('vmap', ob.vmapS(h2.compare_genomes_vertically(gs[a], gs[d])))
             ex.submit(cid + '-r%d' % j, E, o.tags, ['load', 'forest', 'members', 'genomes', 'vmap'],
                       queries=['(v %s %s)' % (tax_q(a), tax_q(d)) for a, d in pairs])
         if tier == 'thorough' and k % 10 == 0:
@@ -629,7 +629,7 @@ def c17(tier, seed):
             try:
                 if kind == 'v':
                     m = h.compare_genomes_vertically(gs[op[2]], gs[op[3]])
-                    return 'vmap ' + ob.hmapS(m.map) + ' nd=%s' % m.get_number_duplications()
+                    return 'vmap ' + ob.vmapS(m) + ' nd=%s' % m.get_number_duplications()
                 if kind == 'l':
                     lm = h.compare_genomes_lateral(gs[op[2]], gs[op[3]])
                     lm.get_lost(); lm.get_gained(); lm.get_retained(); lm.get_duplicated()
